@@ -815,24 +815,28 @@ impl quote::ToTokens for ImplWhereClause<'_, '_> {
             self.push_impl_t_bounds(stream);
         });
 
-        // When `T` implements the trait itself its supertraits come with that. Delegating elsewhere,
-        // nothing says that `Impl<T>` has them (`trait Foo: Send`, `trait B: A`): the impl is for those that do.
+        // Nothing says that `Impl<T>` has the supertraits (`trait Foo: Display`, `trait B: A` with `A`
+        // delegated some other way than `B`): the impl is for those that do.
+        // (When `T` implements the trait itself, supertraits that mention `Self` come with that.)
         let delegates_to_self = matches!(
             &self.attr.delegation_kind,
             None | Some(SpanOpt(Delegate::BySelf, _))
         );
-        if !delegates_to_self {
-            if let Supertraits::Some { bounds, .. } = &self.out_trait.supertraits {
-                if !bounds.is_empty() {
-                    punctuator.push_fn(|stream| {
-                        push_tokens!(
-                            stream,
-                            syn::token::SelfType(self.span),
-                            syn::token::Colon(self.span),
-                            bounds
-                        );
-                    });
-                }
+        if let Supertraits::Some { bounds, .. } = &self.out_trait.supertraits {
+            let self_ident = syn::Ident::new("Self", self.span);
+            let mentions_self = crate::analyze_generics::mentions_ident(
+                bounds.to_token_stream(),
+                &self_ident,
+            );
+            if !bounds.is_empty() && !(delegates_to_self && mentions_self) {
+                punctuator.push_fn(|stream| {
+                    push_tokens!(
+                        stream,
+                        syn::token::SelfType(self.span),
+                        syn::token::Colon(self.span),
+                        bounds
+                    );
+                });
             }
         }
 
